@@ -29,31 +29,84 @@ FLAG_STALE_OK = {
   "Data.ncollision": "with CONTACT/CONSTRAINT disabled collision() returns before zeroing the broadphase counter; its only reader on that path is the overflow detector of _next_time (ncollision > naconmax), which can only re-raise a sticky bit that the overflowing step already raised (inside C12's no-overflow proviso)",
 }
 
-# R-LIVE.7: (host function, field) pairs where today's tree fully (re)defines the field (zero_/fill_) on the host before
-# launches of the same function, on a compatible path, accumulate into it or write it only partially - the reference for
-# later changes (list generated from the traces and confirmed by reading). Keys are function + field, never lines.
-CLEARED_BEFORE_PARTIAL = {
+# R-LIVE.7: (host function, field) pairs where today's tree fully (re)defines the field - host zero_/fill_/copy or an
+# initialising launch storing it unconditionally at the thread's own index - before launches of the same function, on a
+# compatible path, accumulate into it or write it only partially. Generated from the traces of step/forward/inverse
+# (r_live.init_then_partial_pairs) and confirmed by reading: all are init-then-accumulate / init-then-scatter patterns.
+# The reference for later changes; keys are function + field, never lines.
+INIT_BEFORE_PARTIAL = {
   ("collision_driver.collision", "Data.nacon"),
   ("collision_driver.collision", "Data.ncollision"),
+  ("collision_driver.sap_broadphase", "temp:collision_driver.sap_broadphase:sort_index"),
   ("constraint.make_constraint", "Data.efc.Jqvel"),
+  ("constraint.make_constraint", "Data.efc.jtdaj_nblock"),
+  ("constraint.make_constraint", "Data.ne"),
+  ("constraint.make_constraint", "Data.nefc"),
+  ("constraint.make_constraint", "Data.nf"),
+  ("constraint.make_constraint", "Data.nl"),
+  ("constraint.make_constraint", "temp:constraint.make_constraint:efc_nnz"),
   ("derivative.deriv_smooth_vel", "temp:forward.implicit:qDeriv"),
   ("derivative.deriv_smooth_vel", "temp:forward.implicit:qH_M"),
   ("derivative.deriv_smooth_vel", "temp:inverse.discrete_acc:qDeriv"),
+  ("forward._advance", "Data.qvel"),
   ("forward.forward", "Data.sensordata"),
+  ("forward.fwd_actuation", "Data.actuator_force"),
   ("forward.fwd_actuation", "Data.qfrc_actuator"),
+  ("forward.rungekutta4", "Data.qpos"),
+  ("forward.rungekutta4", "Data.qvel"),
+  ("island.compute_island_mapping", "Data.efc.island"),
   ("island.compute_island_mapping", "Data.island_dofadr"),
+  ("island.compute_island_mapping", "Data.island_iefcadr"),
+  ("island.compute_island_mapping", "Data.island_ne"),
+  ("island.compute_island_mapping", "Data.island_nefc"),
+  ("island.compute_island_mapping", "Data.island_nf"),
+  ("island.compute_island_mapping", "Data.island_nv"),
+  ("island.compute_island_mapping", "Data.map_efc2iefc"),
+  ("island.compute_island_mapping", "Data.map_idof2dof"),
+  ("island.compute_island_mapping", "Data.map_iefc2efc"),
+  ("island.compute_island_mapping", "Data.nidof"),
+  ("island.compute_island_mapping", "temp:island.compute_island_mapping:#1"),
+  ("island.compute_island_mapping", "temp:island.compute_island_mapping:#10"),
+  ("island.compute_island_mapping", "temp:island.compute_island_mapping:#11"),
+  ("island.compute_island_mapping", "temp:island.compute_island_mapping:#2"),
+  ("island.compute_island_mapping", "temp:island.compute_island_mapping:#3"),
+  ("island.compute_island_mapping", "temp:island.compute_island_mapping:#9"),
+  ("island.compute_island_mapping", "temp:island.compute_island_mapping:efc_tree"),
   ("island.flood_fill", "Data.tree_island"),
   ("island.tree_edges", "temp:island.island:tree_tree"),
+  ("island.update_active_dofs", "Data.cdof_dof"),
+  ("island.update_active_dofs", "Data.dof_cdof"),
   ("passive.passive", "Data.qfrc_adhesion"),
   ("passive.passive", "Data.qfrc_gravcomp"),
+  ("sensor.energy_pos", "Data.energy"),
   ("sensor.sensor_acc", "temp:sensor.sensor_acc:sensor_contact_criteria"),
   ("sensor.sensor_acc", "temp:sensor.sensor_acc:sensor_contact_matchid"),
   ("sensor.sensor_acc", "temp:sensor.sensor_acc:sensor_contact_nmatch"),
+  ("sleep.update_sleep", "Data.nbody_awake"),
+  ("sleep.update_sleep", "Data.ntree_awake"),
+  ("sleep.update_sleep", "Data.nv_awake"),
+  ("sleep.update_sleep_trees", "Data.ntree_awake"),
+  ("smooth._factor_i_sparse", "Data.qLD"),
+  ("smooth._factor_i_sparse", "temp:forward.euler:qLD"),
+  ("smooth._factor_i_sparse", "temp:forward.implicit:qLD"),
+  ("smooth.com_pos", "Data.subtree_com"),
   ("smooth.crb", "Data.M"),
+  ("smooth.crb", "Data.crb"),
+  ("smooth.rne_postconstraint", "Data.cfrc_ext"),
+  ("smooth.subtree_vel", "Data.subtree_angmom"),
+  ("smooth.subtree_vel", "Data.subtree_linvel"),
   ("smooth.tendon", "Data.ten_J"),
   ("smooth.tendon", "Data.ten_length"),
   ("smooth.tendon", "Data.wrap_obj"),
   ("smooth.tendon", "Data.wrap_xpos"),
   ("solver._compact_gather", "Data.cJ"),
-  ("solver._solve", "ctx:search_unchanged"),
+  ("solver._compact_gather", "Data.cM"),
+  ("solver._solve", "Data.cqacc"),
+  ("solver._solve", "Data.qacc"),
+  ("solver._solve", "ctx:search_dot"),
+  ("solver._solver_iteration", "ctx:beta"),
+  ("solver._solver_iteration", "ctx:beta_den"),
+  ("solver.init_context", "ctx:search_dot"),
+  ("solver.smooth_solve_compact", "Data.cM"),
 }
+CLEARED_BEFORE_PARTIAL = INIT_BEFORE_PARTIAL  # former name
